@@ -30,13 +30,22 @@ type TransferResult struct {
 // received and what the application read. The application closes only after everything expected was seen at
 // both ends (orderly close is C17's subject).
 func RunTransfer(p *Pair, channel string, tgt *Target, spec TransferSpec) TransferResult {
-	res := TransferResult{}
-	start := time.Now()
-	release := make(chan struct{})
-	var relOnce sync.Once
-	rel := func() { relOnce.Do(func() { close(release) }) }
-	defer rel()
-	upDone := make(chan struct{})
+	return PrepareTransfer(tgt, spec).Run(p, channel)
+}
+
+// PreparedTransfer is a transfer whose target side is already armed. Needed when the logical connection is
+// opened by the client itself at start-up (standard-stream listeners).
+type PreparedTransfer struct {
+	tgt     *Target
+	spec    TransferSpec
+	release chan struct{}
+	relOnce sync.Once
+	upDone  chan struct{}
+}
+
+// PrepareTransfer arms the target for the exchange; call Run afterwards.
+func PrepareTransfer(tgt *Target, spec TransferSpec) *PreparedTransfer {
+	pt := &PreparedTransfer{tgt: tgt, spec: spec, release: make(chan struct{}), upDone: make(chan struct{})}
 	tgt.DrainNew()
 	tgt.SetHandler(func(tc *TargetConn) {
 		var wg sync.WaitGroup
@@ -52,11 +61,21 @@ func RunTransfer(p *Pair, channel string, tgt *Target, spec TransferSpec) Transf
 			tc.ReadLoop(len(spec.Up))
 			go writeDown()
 		}
-		close(upDone)
+		close(pt.upDone)
 		wg.Wait()
-		<-release
+		<-pt.release
 		tc.Conn.Close()
 	})
+	return pt
+}
+
+// Run performs the application side of the exchange and collects both observations.
+func (pt *PreparedTransfer) Run(p *Pair, channel string) TransferResult {
+	res := TransferResult{}
+	spec, tgt, upDone := pt.spec, pt.tgt, pt.upDone
+	start := time.Now()
+	rel := func() { pt.relOnce.Do(func() { close(pt.release) }) }
+	defer rel()
 	conn, err := p.Dial(channel)
 	if err != nil {
 		res.Problem = "dial client listener: " + err.Error()
